@@ -1,0 +1,16 @@
+//go:build verif
+
+// Contracts for the exovc verifier (/verif). Comment-only: with the tag off this file is not part
+// of the package, with the tag on it declares nothing.
+package keeper
+
+//@ define holdKey(rk) = cat(bytelit(g("x/delegation/types.prefixUndelegationOnHold")), rk)
+
+// Frame of the delegation hooks of the dogfood AVS (the only subscriber, app.go): they write the
+// dogfood store and the hold count of the record, nothing else.
+//@ func (DelegationHooksWrapper).AfterDelegation
+//@   ensures[C16.ad.noop] true
+
+//@ func (DelegationHooksWrapper).AfterUndelegationStarted
+//@   flag assumed
+//@   modifies store(ctx, "dogfood"), get(ctx, "delegation", holdKey(recordKey))
